@@ -12,6 +12,12 @@ CHECKS = {
         note="Trusted: clang 14 parser/CFG/constant evaluator, the extractor, forward must-dataflow with branch atoms (path-insensitive except for the concrete value of `len`), parameter-write summaries; aliasing between distinct locals ignored. Floors: 22 decoders, 7 point decoders, 22 encoders. Rules validated on every run by violating/conforming miniatures (sa/selftest/c07.c).",
         technique="forward must-dataflow (guard dominance) over the exploded clang CFG + sibling/table agreement (size/read/write constants)",
     ),
+    "C08": dict(
+        text="Static decision of structural necessary conditions of memory safety, each of which when violated yields a concrete out-of-bounds access: at all 155 call sites of the scalar recoders the length handed in (times the row factor) provably fits the buffer handed in (BUF-LEN: forward dataflow of constants/allocation sizes + a symbolic extent prover with loop-index bounds and bit-length bounds of reduced scalars), and inside every recoder each write through the caller's buffer is dominated by a lower-bound test of *len whose failing side leaves (REC-GUARD). Right level: buffer/length mismatches only manifest for operand sizes or configurations the suite never generates. Not decided: absence of all undefined behaviour; loops bounded by ->used of operands.",
+        design_ref="DESIGN.md section 3 (C08)",
+        note="Trusted: clang 14 parser/CFG/constant evaluator (array extents folded under the active configuration), the extractor, the extent prover's assumption that symbols are non-negative sizes, the table of bit-length-preserving bn operations (bn_mod, bn_abs, bn_rec_glv, order getters), and that lengths of built-in curve parameters (not API inputs) are outside the rule. Validated on every run by miniatures in sa/selftest/c08.c.",
+        technique="forward must-dataflow (reaching constants, allocation sizes, guard dominance) + symbolic extent comparison over the clang CFG",
+    ),
     "C19": dict(
         text="Static decision, on all paths of all library functions under the BASE, DYNAMIC-allocation and MULTI(pthread) configuration headers, of the structural clauses of the error-handling/context state machine: handler chain restored (TRY-BALANCE, REGION-DEPTH), finaliser exactly once and before the handler (FINALLY-ONCE/-EXIT), nothing in a finaliser can clear the pending exception (FINALLY-PURE), sticky code stored first and a throw with a handler never falls through (THROW-CODE), protocol fields written only by the protocol (CTX-WRITERS), no writable shared state besides the (thread-local under MULTI) context pointer (NO-SHARED-STATE). This is the right level because these clauses are visible in the shape of the code on every path and the suite runs one nesting shape in one configuration; value-level equality after re-parameterisation is not decided.",
         design_ref="DESIGN.md section 3 (C19)",
